@@ -99,6 +99,25 @@ def _nonlinear(e, _cache={}):
     return r
 
 
+def _var_ids(e, _cache={}):
+    """ids of the uninterpreted constants occurring in e (memoised per ast)"""
+    i = e.get_id()
+    hit = _cache.get(i)
+    if hit is not None:
+        return hit[0]
+    out = set()
+    if z3.is_const(e):
+        if e.decl().kind() == z3.Z3_OP_UNINTERPRETED:
+            out.add(i)
+    else:
+        for c in e.children():
+            out |= _var_ids(c)
+    if len(_cache) > 300000:
+        _cache.clear()
+    _cache[i] = (frozenset(out), e)
+    return _cache[i][0]
+
+
 class Ctx:
     """One path of the exploration.
 
@@ -125,13 +144,40 @@ class Ctx:
         self.eqs = []  # (var, var|numeral) equalities of the path, applied in order
 
     # -- feasibility ---------------------------------------------------------------
+    def _relevant_path(self, extra, want_model):
+        """the path condition without the definitions r >= 0 /\ r*r == X of square-root variables that occur nowhere
+        else in the query: such a definition is satisfiable whatever the other variables are (X is a sum of squares
+        or was tested non-negative), so dropping it does not change the answer -- and nlsat is spared the variable"""
+        defs = getattr(self, "sqrt_defs", None)
+        if not defs or want_model:
+            return self.path
+        def_ids = {c.get_id() for (_, c) in defs.values()}
+        used = set()
+        for c in list(self.path) + list(extra):
+            if c.get_id() not in def_ids:
+                used |= _var_ids(c)
+        changed = True
+        keep = set()
+        while changed:
+            changed = False
+            for vid, (rv, c) in defs.items():
+                if vid in used and vid not in keep:
+                    keep.add(vid)
+                    new = _var_ids(c) - used
+                    if new:
+                        used |= new
+                        changed = True
+        drop = {c.get_id() for vid, (_, c) in defs.items() if vid not in keep}
+        return [c for c in self.path if c.get_id() not in drop]
+
     def _full_check(self, extra, want_model=False, mult=2):
         last = (z3.unknown, None)
+        path = self._relevant_path(extra, want_model)
         for logic in ("QF_NRA", None):
             s2 = z3.SolverFor(logic) if logic else z3.Solver()
             s2.set("timeout", self.timeout_ms * mult)
             s2.set("rlimit", self.timeout_ms * mult * 1500)  # nlsat does not always honour the timeout
-            for c in self.path:
+            for c in path:
                 s2.add(c)
             for c in extra:
                 s2.add(c)
@@ -722,7 +768,8 @@ class SV:
         self._abs = r
         return r
 
-    def sqrt(self):
+    def sqrt(self, nonneg=False):
+        """nonneg=True: the caller knows the radicand is a sum of squares (no sign test is forked)"""
         if self.c is not None:
             fr = self.c
             if fr < 0:
@@ -733,7 +780,7 @@ class SV:
         ctx = Ctx.cur
         if ctx is None:
             raise Concretised("symbolic sqrt outside an exploration")
-        if ctx.decide(self.e < 0):
+        if not nonneg and ctx.decide(self.e < 0):
             raise ValueError("sqrt of negative symbolic value")
         # sqrt(c^2 * Y) = c * sqrt(Y): split a rational square off the polynomial's leading coefficient, so that
         # radicands that differ by such a factor share one square-root variable
@@ -760,7 +807,11 @@ class SV:
         if hit is None:
             ctx.nsqrt += 1
             r = z3.Real(f"_sqrt{ctx.nsqrt}")
-            ctx.assume(z3.And(r >= 0, SV(r * r).eq_expr(rad)))
+            definition = z3.simplify(z3.And(r >= 0, SV(r * r).eq_expr(rad)))
+            ctx.assume(definition)
+            if not hasattr(ctx, "sqrt_defs"):
+                ctx.sqrt_defs = {}
+            ctx.sqrt_defs[r.get_id()] = (r, definition)
             hit = ctx.sqrts[key] = (SV(r, (), None, self.t), rad)
         return hit[0] * factor if factor != 1 else hit[0]
 
@@ -973,3 +1024,97 @@ def model_value(m, sv, default=Fraction(0)):
         return sv.c
     v = z3.simplify(m.eval(sv.e, model_completion=True))
     return frac_of(v)  # ValueError when the model does not determine a number (e.g. x/0)
+
+
+class LazySqrt:
+    """sqrt(x) for a symbolic x known to be >= 0, kept unevaluated: comparisons with non-negative constants and with
+    other lazy roots are decided on the radicands (no square-root variable, no non-linear definition); s**2 and s*s give
+    the radicand back; any other arithmetic materialises a square-root variable of the engine."""
+
+    __slots__ = ("x", "_sv")
+
+    def __init__(self, x):
+        self.x = SV.lift(x)
+        self._sv = None
+
+    def sv(self):
+        if self._sv is None:
+            self._sv = self.x.sqrt(nonneg=True)
+        return self._sv
+
+    def _cmp(self, o, op):
+        if isinstance(o, LazySqrt):
+            return getattr(self.x, f"__{op}__")(o.x)
+        c = _const(o)
+        if c is not None:
+            if c < 0:
+                return op in ("gt", "ge", "ne")
+            return getattr(self.x, f"__{op}__")(c * c)
+        if isinstance(o, SV) and o.c is not None:
+            return self._cmp(o.c, op)
+        return getattr(self.sv(), f"__{op}__")(o)
+
+    def __lt__(self, o):
+        return self._cmp(o, "lt")
+
+    def __le__(self, o):
+        return self._cmp(o, "le")
+
+    def __gt__(self, o):
+        return self._cmp(o, "gt")
+
+    def __ge__(self, o):
+        return self._cmp(o, "ge")
+
+    def __eq__(self, o):
+        return self._cmp(o, "eq")
+
+    def __ne__(self, o):
+        return self._cmp(o, "ne")
+
+    def __hash__(self):
+        return 0
+
+    def __abs__(self):
+        return self
+
+    def __pow__(self, n):
+        if n == 2:
+            return self.x
+        return self.sv() ** n
+
+    def __mul__(self, o):
+        if o is self or (isinstance(o, LazySqrt) and o.x is self.x):
+            return self.x
+        return self.sv() * (o.sv() if isinstance(o, LazySqrt) else o)
+
+    def __rmul__(self, o):
+        return (o.sv() if isinstance(o, LazySqrt) else o) * self.sv()
+
+    def __add__(self, o):
+        return self.sv() + (o.sv() if isinstance(o, LazySqrt) else o)
+
+    __radd__ = __add__
+
+    def __sub__(self, o):
+        if o is self:
+            return SV.const(0)
+        return self.sv() - (o.sv() if isinstance(o, LazySqrt) else o)
+
+    def __rsub__(self, o):
+        return (o.sv() if isinstance(o, LazySqrt) else o) - self.sv()
+
+    def __truediv__(self, o):
+        return self.sv() / (o.sv() if isinstance(o, LazySqrt) else o)
+
+    def __rtruediv__(self, o):
+        return (o.sv() if isinstance(o, LazySqrt) else o) / self.sv()
+
+    def __neg__(self):
+        return -self.sv()
+
+    def __float__(self):
+        return float(self.sv())
+
+    def __repr__(self):
+        return f"LazySqrt({self.x})"
